@@ -264,8 +264,10 @@ func (c *Ctx) reachesFsWrite(fn *ssa.Function) bool {
 }
 
 // writesReceiver: the method (transitively, in the library) stores through its receiver.
-func (c *Ctx) writesReceiver(fn *ssa.Function) bool {
-	if len(fn.Params) == 0 {
+func (c *Ctx) writesReceiver(fn *ssa.Function) bool { return c.writesReceiverDepth(fn, 0) }
+
+func (c *Ctx) writesReceiverDepth(fn *ssa.Function, depth int) bool {
+	if len(fn.Params) == 0 || depth > 3 {
 		return false
 	}
 	hit := false
@@ -282,6 +284,18 @@ func (c *Ctx) writesReceiver(fn *ssa.Function) bool {
 					id := ir.CallID(x)
 					if id == "bytes.Buffer.Write" || id == "encoding/binary.Write" || id == "bytes.Buffer.WriteString" {
 						hit = true
+					}
+				}
+			}
+			// a library function handed the receiver (or an object it holds) that writes through it
+			if callee := ir.Callee(x); callee != nil && callee != fn && c.P.InLib(callee) && callee.Blocks != nil {
+				for k, a := range ir.CallArgs(x) {
+					if k < len(callee.Params) && ir.RootOf(a) == ssa.Value(fn.Params[0]) {
+						if k == 0 && c.writesReceiverDepth(callee, depth+1) {
+							hit = true
+						} else if k > 0 && c.writesThroughParam(callee, k) {
+							hit = true
+						}
 					}
 				}
 			}
@@ -359,4 +373,28 @@ func (c *Ctx) ruleShortRead(rule string, in func(*ssa.Function) bool) int {
 		c.R.Okf(rule, "-", "scan", "-", "no direct Read on an interface value in the operations' call cone (reads go through io.ReadFull / binary.Read / io.ReadAll / io.Copy)")
 	}
 	return n
+}
+
+// writesThroughParam: callee stores through (or Buffer.Writes into) its k-th parameter.
+func (c *Ctx) writesThroughParam(callee *ssa.Function, k int) bool {
+	hit := false
+	p := callee.Params[k]
+	instrsOf(callee, func(i ssa.Instruction) {
+		switch x := i.(type) {
+		case *ssa.Store:
+			if ir.RootOf(x.Addr) == ssa.Value(p) {
+				hit = true
+			}
+		case ssa.CallInstruction:
+			for _, a := range ir.CallArgs(x) {
+				if ir.RootOf(a) == ssa.Value(p) {
+					switch ir.CallID(x) {
+					case "bytes.Buffer.Write", "encoding/binary.Write", "bytes.Buffer.WriteString", "bytes.Buffer.Reset", "bytes.Buffer.Truncate":
+						hit = true
+					}
+				}
+			}
+		}
+	})
+	return hit
 }
